@@ -263,25 +263,29 @@ def footnote(n, name='footnote', opt=None):
     return out
 
 
+def item(lab=None, rx=None):
+    """\\item or \\item[lab]: own construct span; an automatic label (rx) or the given label,
+    possibly followed by the punctuation mark that ended the preceding text"""
+    if lab is None:
+        return N('\\item', [('G', 0, 5, rx)] if rx else [], spans=[(0, 5)])
+    return place('\\item[{0}]', [lab], ev_order=[0, r'[.:,;!?]?'])
+
+
 def item_env(env, items, labels=None):
     """itemize / enumerate: items is a list of (label_node_or_None, body_node)"""
     parts = []
     fmt = '\\begin{{' + env + '}}'
-    order = []
     for i, (lab, body) in enumerate(items):
         if lab is None:
-            fmt += '\\item {%d}' % len(parts)
-            if env == 'enumerate':
-                # first level 1. 2. .., nested levels a. b. ..
-                order.append('(?:%d|%s)' % (i + 1, chr(ord('a') + i)) + r'\.')
-            order.append(len(parts))
-            parts.append(body)
+            # first level 1. 2. .., nested levels a. b. ..
+            rx = ('(?:%d|%s)' % (i + 1, chr(ord('a') + i)) + r'\.') if env == 'enumerate' else None
+            parts.append(item(None, rx))
         else:
-            fmt += '\\item[{%d}] {%d}' % (len(parts), len(parts) + 1)
-            order += [len(parts), r'[.:,;!?]?', len(parts) + 1]
-            parts += [lab, body]
+            parts.append(item(lab))
+        fmt += '{%d} {%d}' % (len(parts) - 1, len(parts))
+        parts.append(body)
     fmt += '\\end{{' + env + '}}'
-    return place(fmt, parts, ev_order=order)
+    return place(fmt, parts)
 
 
 def newtheorem(env='thm', title='Theorem'):
